@@ -84,7 +84,7 @@ func report(c *kit.Case, res outcome, src string, o checkOpts, g *genCtx, extra 
 			for k, v := range extra {
 				w[k] = v
 			}
-			if i == 0 && shrunk[f.Key] < 1 && !strings.HasPrefix(f.Key, "C20/hang/") {
+			if i == 0 && shrunk[f.Key] < 1 && !strings.HasPrefix(f.Key, "C20/hang/") && !o.posFirst {
 				shrunk[f.Key]++
 				if m := shrink(src, f.raw, o); m != src {
 					w["minimized_input"] = m
@@ -366,6 +366,9 @@ func TestVerifC20(t *testing.T) {
 
 	// ---- extension families (ext_test.go): keyword substitution, cuts, file I/O, node and token API
 	runExtFamilies(t)
+
+	// ---- bounded-exhaustive: every statement kind x token gap x way a comment / line break sits there (posfamily_test.go)
+	runPosFamily(t)
 
 	kit.End()
 }
